@@ -395,9 +395,11 @@ class Driver:
             out.append(self.rx[k - 1] if asobj else self.rids[k - 1])
         return out
 
-    def run(self, beh, tid, prop):
+    def run(self, beh, tid, prop, mark=None):
         events = []
-        for s in beh["steps"]:
+        for k, s in enumerate(beh["steps"]):
+            if mark is not None:
+                mark(k)
             nsol = len(self.solutions)
             obs = self.step(s)
             snaps = [self.digest(x) for x in self.solutions[:nsol]]
@@ -423,11 +425,13 @@ def _drive_slice(items, path):
     signal.signal(signal.SIGALRM, _alarm)
     with open(path, "a") as fh:
         for tid, pal, beh, prop in items:
-            fh.write(json.dumps({"start": tid}) + "\n")
-            fh.flush()
+            def mark(k, tid=tid):
+                fh.write(json.dumps({"start": tid, "step": k}) + "\n")
+                fh.flush()
+            mark(-1)
             signal.alarm(120)
             try:
-                tr = Driver(pal, beh["M0"]).run(beh, tid, prop)
+                tr = Driver(pal, beh["M0"]).run(beh, tid, prop, mark)
             except _Timeout:
                 fh.write(json.dumps({"timeout": tid}) + "\n")
                 fh.flush()
@@ -443,6 +447,38 @@ def _drive_chunk(items):
     """In-process variant (profiling)."""
     warnings.simplefilter("ignore")
     return [Driver(pal, beh["M0"]).run(beh, tid, prop) for tid, pal, beh, prop in items]
+
+
+def crash_traces(crashed, wd):
+    """A behaviour whose call killed the worker: the steps before the fatal one are driven again (fresh
+    process) and the fatal call is appended as an event with the outcome `crash`, so that TLC judges it
+    like any other outcome (a violation when the call was in scope).  Returns (traces, unplaceable)."""
+    out, bad = [], []
+    for it, code, k in crashed:
+        tid, pal, beh, prop = it
+        if k < 0:
+            bad.append((it, code))
+            continue
+        prefix = dict(beh, steps=beh["steps"][:k])
+        tr, cr = drive_all([(tid, pal, prefix, prop)], nproc=1, wd=wd) if k > 0 else ([{"tid": tid, "prop": prop, "M0": beh["M0"], "events": []}], [])
+        if cr or not tr:
+            bad.append((it, code))
+            continue
+        t = tr[0]
+        if t["events"]:
+            prev = t["events"][-1]
+            model = prev["model"]
+            snaps = list(prev["snaps"])
+            if prev["step"]["op"] == "optimize" and prev["obs"]["raises"] == "none":
+                snaps.append(prev["obs"]["sol"])
+        else:
+            model = {k2: beh["M0"][k2] for k2 in ("lb", "ub", "c", "dir")}
+            snaps = []
+        obs = {"raises": "crash", "sol": NO_DIGEST, "ret": enc(None), "status": "crash", "index": [], "min": [], "max": [],
+               "ids": [], "kept": [], "start": [], "flux": [], "rc": [], "sp": [], "exitcode": -code if code and code < 0 else (code or 0)}
+        t["events"].append({"step": beh["steps"][k], "obs": obs, "model": model, "snaps": snaps})
+        out.append(t)
+    return out, bad
 
 
 def drive_all(items, nproc=None, wd=None):
@@ -467,7 +503,7 @@ def drive_all(items, nproc=None, wd=None):
             procs.append((w, p, path))
         for w, p, path in procs:
             p.join()
-            done, inflight = set(), None
+            done, inflight, instep = set(), None, -1
             if os.path.exists(path):
                 with open(path) as fh:
                     for line in fh:
@@ -477,6 +513,7 @@ def drive_all(items, nproc=None, wd=None):
                             continue
                         if "start" in rec:
                             inflight = rec["start"]
+                            instep = rec["step"]
                         elif "timeout" in rec:
                             pass
                         else:
@@ -489,8 +526,8 @@ def drive_all(items, nproc=None, wd=None):
                 slices[w] = []
                 continue
             if inflight is None and rest:
-                inflight = rest[0][0]        # died before announcing anything
-            crashed.extend([(it, p.exitcode) for it in rest if it[0] == inflight])
+                inflight, instep = rest[0][0], -1        # died before announcing anything
+            crashed.extend([(it, p.exitcode, instep) for it in rest if it[0] == inflight])
             slices[w] = [it for it in rest if it[0] != inflight]
     traces.sort(key=lambda t: t["tid"])
     return traces, crashed
@@ -567,7 +604,7 @@ def run(prop, tier, replay=None):
     phases["design_and_negative_controls"] = round(time.time() - t0, 1)
     total_traces = total_events = 0
     per_action, samples, cases = {}, [], set()
-    undecided = 0
+    undecided = ncrash = 0
     gen_cov = {}
     for name, over, npal in list(T["gens"]) + [("witnesses", None, 1)]:
         if over is None:
@@ -593,11 +630,13 @@ def run(prop, tier, replay=None):
         t0 = time.time()
         traces, crashed = drive_all(items, wd=wd)
         phases["drive_" + name] = round(time.time() - t0, 1)
-        for it, code in crashed:
-            # an absent observation cannot be judged by TLC: the engine reports the dead call itself
+        ctr, bad = crash_traces(crashed, wd)
+        traces = sorted(traces + ctr, key=lambda t: t["tid"])
+        ncrash += len(crashed)
+        for it, code in bad:
+            # died outside a step (model construction): nothing TLC could judge; the engine reports it
             rep.verdict({"verdict": "MISMATCH", "spec": "TraceFlux", "action": "crash", "clauses": ["worker_crashed"],
-                         "tags": ["solver_" + it[1]["solver"]] + sorted({"calls_" + s["op"] for s in it[2]["steps"]}),
-                         "exitcode": code, "tid": it[0], "palette": it[1]["name"]},
+                         "tags": ["solver_" + it[1]["solver"]], "exitcode": code, "tid": it[0], "palette": it[1]["name"]},
                         {"engine": "flux", "palette": it[1]["name"], "behaviour": it[2]})
         t0 = time.time()
         verdicts, cmd = validate(traces, wd, name)
@@ -649,7 +688,7 @@ def run(prop, tier, replay=None):
     return rep.finish({
         "traces_validated_against_impl": total_traces, "events_validated": total_events,
         "per_action_counts": per_action, "negative_controls": controls,
-        "undecided_events": undecided,
+        "undecided_events": undecided, "calls_that_killed_the_worker": ncrash,
         "distinct_pre_state_action_pairs": len(cases),
         "rule": "a case is a distinct (instance incl. the edits applied so far, call with its arguments) pair; "
                 "palettes (solver interface, id spelling) multiply the traces, not the cases",
@@ -695,11 +734,12 @@ def _replay(rep, wd, payload):
     pal = [p for p in PALETTES if p["name"] == r["palette"]][0]
     traces, crashed = drive_all([(1, pal, r["behaviour"], rep.prop)], nproc=1, wd=wd)
     if crashed:
-        rep.verdict({"verdict": "MISMATCH", "spec": "TraceFlux", "action": "crash", "clauses": ["worker_crashed"],
-                     "tags": ["solver_" + pal["solver"]] + sorted({"calls_" + s["op"] for s in r["behaviour"]["steps"]}),
-                     "exitcode": crashed[0][1], "tid": 1, "palette": pal["name"]},
-                    {"engine": "flux", "palette": pal["name"], "behaviour": r["behaviour"]})
-        return rep.finish({"traces_validated_against_impl": 0, "events_validated": 0})
+        traces, bad = crash_traces(crashed, wd)
+        if bad:
+            rep.verdict({"verdict": "MISMATCH", "spec": "TraceFlux", "action": "crash", "clauses": ["worker_crashed"],
+                         "tags": ["solver_" + pal["solver"]], "exitcode": crashed[0][1], "tid": 1, "palette": pal["name"]},
+                        {"engine": "flux", "palette": pal["name"], "behaviour": r["behaviour"]})
+            return rep.finish({"traces_validated_against_impl": 0, "events_validated": 0})
     verdicts, cmd = validate(traces, wd, "replay")
     for v in verdicts:
         if v.get("verdict") == "UNDECIDED":
